@@ -3,7 +3,7 @@ EXTENDS ValueGen, Json
 
 MCTexts == { <<"a">>, <<"SP", "E1", "SP">> }
 MCVars  == { <<"x">>, <<"y">> }
-MCComps == { <<"b">>, <<"i">> }
+MCComps == { <<"b">>, <<"i", "E1">> }     \* (a component whose name is not ASCII: byte length and character count differ)
 
 WsAtoms == { <<>>, <<"SP">>, <<"SP", "SP">>, <<"NBSP">>, <<"TAB">> }
 Positions == {"vl", "vr", "ol", "orr", "c1", "c2", "cr"}
